@@ -74,6 +74,12 @@ func (tr *fnTrans) instr(b *ssa.BasicBlock, in ssa.Instruction) {
 			name := "H_" + es.Tag()
 			tr.touchHeap(name, es, false)
 			tr.setHeap(name, store(tr.curHeap(name), id, zeroOf(es)))
+			if tr.v.typedSorts[es.Name] {
+				// ghost: the set of objects allocated with this struct type
+				tn := "T_" + es.Tag()
+				tr.touchHeap(tn, SBool, false)
+				tr.setHeap(tn, store(tr.curHeap(tn), id, "true"))
+			}
 		}
 		tr.vals[in] = T(id, tr.v.ptrTo(es))
 	case *ssa.Store:
@@ -86,6 +92,10 @@ func (tr *fnTrans) instr(b *ssa.BasicBlock, in ssa.Instruction) {
 			t := tr.load(l, in.Pos())
 			nt := tr.setVal(in, t.T, t.S)
 			tr.hyp(implies(in0, tr.wf(nt, tr.alloc)))
+			if g, ok := in.X.(*ssa.Global); ok && t.T != nil && t.T.Name == "Slice" && tr.v.emptySliceGlobal(g) {
+				// package-level slice initialised once with make(T, 0) and never reassigned
+				tr.hyp(app("=", slLen(nt.S), "0"))
+			}
 			if g, ok := in.X.(*ssa.Global); ok && t.T == SErr && tr.v.nonNilErrGlobal(g) {
 				// package-level error value initialised once from fmt.Errorf / errors.New and never reassigned
 				tr.hyp(not(app("=", nt.S, "Err_nil")))
